@@ -137,7 +137,8 @@ def c07_worker(args, scratch):
     r = common.rng("c07-kernel", args["tier"])
     # hook H3: the redirector's state actor sometimes takes 0-4 ms to answer (lookup and removal both go through it): consumption that is not
     # finished when the accept path hands the connection on stays observable for that long
-    k = realbpf.Kernel(scratch, runtime="multi:8", env={"GPA_VERIF_DELAY": "actor_redirector:400:4000", "GPA_VERIF_DELAY_SEED": "7"})
+    # (the concurrent bursts run without them in a second pass: delays spread the accepts out and hide contention on the BpfObject mutex)
+    k = realbpf.Kernel(scratch, runtime="multi:8", env={"GPA_VERIF_DELAY": "actor_redirector:400:4000", "GPA_VERIF_DELAY_SEED": "7"} if args.get("delays") else None)
     if k.unavailable or "err" in getattr(k, "attach", {}):
         cnt["kernel_section_skipped"] = 1
         res["skip_reason"] = k.unavailable or k.attach.get("err")
@@ -161,7 +162,7 @@ def c07_worker(args, scratch):
         def exchange(c, vid):
             c.send(rawhttp.build_request("GET", "/k7/" + vid, [("x-vf-id", vid)]))
             return c.read_response().status
-        for rnd in range(args["rounds"]):
+        for rnd in range(args["rounds"] if not args.get("delays") else 0):
             nconn = r.choice([16, 32, 48])
             ports = [None] * nconn
             barrier = threading.Barrier(nconn)
@@ -208,7 +209,7 @@ def c07_worker(args, scratch):
             res["nontrivial"].append(common.sha(["kernel-burst", nconn, rnd]))
         # immediate reuse: the port of a served connection is reused (no fresh record) as soon as its response has arrived
         bad = []
-        for i in range(args.get("immediate_reuses", 60)):
+        for i in range(args.get("immediate_reuses", 60) if args.get("delays") else 0):
             try:
                 c = open_conn(record=True)
                 pnum = c.src_port
@@ -224,7 +225,7 @@ def c07_worker(args, scratch):
                     bad.append((pnum, st2))
             except OSError:
                 cnt["port_reuse_bind_failed"] = cnt.get("port_reuse_bind_failed", 0) + 1
-        cnt["kernel_immediate_port_reuses"] = cnt.get("kernel_immediate_port_reuses", 0) + args.get("immediate_reuses", 60)
+        cnt["kernel_immediate_port_reuses"] = cnt.get("kernel_immediate_port_reuses", 0) + (args.get("immediate_reuses", 60) if args.get("delays") else 0)
         if bad:
             viol("kernel:reused-port-without-record-not-refused", {"ports": bad[:8], "history": "port reused right after the first connection's response arrived (actor delay points on)"})
         res["samples"].append({"history": "16-48 connections accepted concurrently through real kernel maps, each port then reused without a record", "rounds": args["rounds"]})
